@@ -54,6 +54,44 @@ fn main() {
         "c08-child" => props::c08::child_main(&args[2..]),
         "c15-child" => props::c15::child_main(&args[2..]),
         "det-child" => determinism::child_main(&args[2..]),
+        "stall-seed" => {
+            // reproduce the repository's test_stalling_operation_falcon_1024 for a printed seed
+            use rand::{RngCore, Rng, SeedableRng};
+            let seed: [u8; 32] = rng::unhex(&args[2]).and_then(|v| v.try_into().ok()).expect("seed hex");
+            let mut r = rand::rngs::StdRng::from_seed(seed);
+            let mut msg = [0u8; 5];
+            r.fill_bytes(&mut msg);
+            let ks: [u8; 32] = r.gen();
+            println!("keygen seed {}", rng::hex(&ks));
+            let (res, tr) = world::keygen_sim::<variant::V1024>(ks, None, None);
+            println!("attempts {} result {:?}", tr.attempts, res.as_ref().map(|_| "ok").map_err(|u| u.signature()));
+            0
+        }
+        "scan-seeds" => {
+            // scan-seeds <n> <from> <to>: counter seeds whose keygen takes a rare branch
+            // (range rejection of a candidate, or more than 100 ntru_gen attempts)
+            let n: usize = args.get(2).and_then(|s| s.parse().ok()).unwrap_or(512);
+            let from: u64 = args.get(3).and_then(|s| s.parse().ok()).unwrap_or(0);
+            let to: u64 = args.get(4).and_then(|s| s.parse().ok()).unwrap_or(0);
+            let items: Vec<u64> = (from..to).collect();
+            let job = |c: u64| -> Vec<u8> {
+                use variant::{V1024, V512};
+                let seed = rng::counter_seed(c);
+                let tr = if n == 512 { world::keygen_sim::<V512>(seed, None, None).1 } else { world::keygen_sim::<V1024>(seed, None, None).1 };
+                format!("{} {} {}", tr.attempts, tr.reject_fg_range, tr.reject_cap_range).into_bytes()
+            };
+            let res = isolate::fork_map(&items, report::workers(), None, &job);
+            for (c, r) in res {
+                if let Ok(b) = r {
+                    let t = String::from_utf8_lossy(&b).to_string();
+                    let v: Vec<u64> = t.split_whitespace().filter_map(|x| x.parse().ok()).collect();
+                    if v.len() == 3 && (v[0] > 100 || v[1] > 0 || v[2] > 0) {
+                        println!("SEED {} {} attempts={} reject_fg={} reject_FG={}", n, c, v[0], v[1], v[2]);
+                    }
+                }
+            }
+            0
+        }
         "deepruns" => {
             // deepruns C01 <tier> <seed> <outfile>
             let tier = if args.get(3).map(|s| s == "thorough").unwrap_or(false) { Tier::Thorough } else { Tier::Quick };
